@@ -80,7 +80,8 @@ claim(
     "raise guard with no else and no other effect, so a run that raises nothing in strict mode "
     "executes the same statements in lax and warn (identical output, no warnings) — for every "
     "template and data, which sampling cannot show; (d) every handler that silently swallows a "
-    "LiquidError-family exception is one of 5 reviewed rows; a new one is reported.",
+    "LiquidError-family exception is one of 5 reviewed rows; a new one is reported."
+    ' Warn mode also *formats* every error it suppresses: C03-FORMAT decides that the formatter cannot raise for a token of the lexer (line lengths added up from splitlines(keepends=True), once per line, first total exceeding the index).',
     "Not decided: that eat_block resynchronises at the right token; non-Liquid exceptions that "
     "from_string converts (C02/C09). Lexer errors are outside the property.",
     "DESIGN.md section 5 C03",
@@ -98,7 +99,8 @@ claim(
     "limited buffer; locals are stored only in RenderContext.assign with the limit test after the "
     "store, get_size_of_locals adds the carry and every copy() passes "
     "local_namespace_size_carry=self.get_size_of_locals(). These are necessary conditions of "
-    "'never more than L bytes' and 'never held more than M', for all templates and limits.",
+    "'never more than L bytes' and 'never held more than M', for all templates and limits."
+    ' An unlimited buffer is handed out exactly when no limit is configured: in both buffer owners every plain StringIO() sits under `output_stream_limit is None` and every LimitedStringIO under its negation (path conditions).',
     "Not decided: that sys.getsizeof measures anything meaningful (the property says 'measured "
     "size'); value-level accounting over whole renders.",
     "DESIGN.md section 5 C07",
@@ -134,7 +136,8 @@ claim(
     "assign/capture/snippet bind through context.assign into locals; include renders on the "
     "caller's context, never a copy; every lookup failure class in get/get_async/_resolve is "
     "converted to env.undefined or the caller's default. Necessary conditions of 'innermost "
-    "binding wins, block names vanish after the block, include shares scope, missing -> undefined'.",
+    "binding wins, block names vanish after the block, include shares scope, missing -> undefined'."
+    ' C14-ITEM: in both item getters element 0 is returned only for `first`, element -1 only for `last` (both only where the string guard is refuted by the path conditions), len() only for `size`, and the plain subscription only where the string_sequences guard is refuted.',
     "Not decided: the value a particular path resolves to on particular data (dotted/bracketed/"
     "negative-index/size/first/last semantics are value-level).",
     "DESIGN.md section 5 C14",
@@ -173,7 +176,8 @@ claim(
     "attributes only on caught exceptions and per-render objects; no module- or class-level "
     "container is mutated from a function; every render builds a new context from a copy of its "
     "arguments. These are all the ways one render could alter its inputs, the template or a later "
-    "render, for every sequence of renders.",
+    "render, for every sequence of renders."
+    ' C17-HITMISS: every <env>.loader.load* call passes globals=make_globals(...), so a cache hit and a miss bind the same globals. C17-SHARED: no function stores an attribute on an object taken out of storage that outlives the call (two open findings: cache hits rebind .globals of the shared cached template).',
     "Aliasing is tracked per function (a helper that mutates its own parameter is flagged at the "
     "helper, not the caller). Excluded by the property: current time, reloaded templates. The "
     "caching loaders' shared template objects are decided under C23.",
@@ -226,7 +230,8 @@ claim(
     "the flag is set, with no other and no partial strip operation in the lexer; the raw body is "
     "emitted unchanged; comment/doc/inline-comment nodes write nothing; content nodes write their "
     "token text verbatim. Necessary conditions of the property's whitespace-control and "
-    "verbatim sentences for every source and every delimiter configuration.",
+    "verbatim sentences for every source and every delimiter configuration."
+    " C10-CURSOR: for every tag without a block, parse() returns with stream.current on the tag token, its verified expression token or the end of the stream on every path (four-state cursor typestate, sa/cursor.py), so the parser's next advance never skips the text, output statement or tag that follows.",
     "Not decided: regex alternation-order effects for pathological overlaps; the liquid tag's "
     "inner tokenizer (lines are trimmed there by design).",
     "DESIGN.md section 5 C10",
@@ -262,7 +267,8 @@ claim(
     "means (`>` is _lt(r, l), `<=` is _eq or _lt(l, r), ...); is_truthy is `not (obj is False or "
     "obj is None)` with undefined false, and every Python-truthiness test on an evaluated "
     "expression in a node/expression is on a field filled from BooleanExpression.parse; _lt and "
-    "_contains end in LiquidTypeError, booleans excluded before numbers.",
+    "_contains end in LiquidTypeError, booleans excluded before numbers."
+    ' The kind table of _lt is decided for all 81 pairs of operand kinds by a three-valued run: numbers of any int/float/Decimal mix and two strings reach the comparison only, a bool gives False, every other pair reaches the LiquidTypeError only.',
     "Not decided: the result tables of _eq/_lt/_contains/empty/blank for particular operand values.",
     "DESIGN.md section 5 C12",
 )
@@ -282,7 +288,8 @@ claim(
     "differently (None vs False), so no raw ==/!=/in/.index/.count reachable from render may put "
     "a possibly-undefined data value next to a possibly nil/bool/undefined one unless "
     "is_undefined excludes it on that path or both operands were unwrapped through __liquid__() "
-    "(C16-RAWEQ); handlers that would swallow UndefinedError are listed (C16-SWALLOW).",
+    "(C16-RAWEQ); handlers that would swallow UndefinedError are listed (C16-SWALLOW)."
+    " C16-MISSING: the item getters leave only through KeyError/TypeError/IndexError (what RenderContext.get* turn into the undefined value); the 'first pair of a mapping' next() runs only for a non-empty object.",
     "Not decided: the rest of the first sentence (equal output of a strict render that succeeds) — "
     "value level. Kind inference treats values of unknown kind as not armed.",
     "DESIGN.md section 5 C16",
@@ -300,7 +307,8 @@ claim(
     "children() — under no condition other than on that field itself (path conditions; a loop "
     "over several fields must not break or return) —; every filters slot is read by _extract_filters; the analyser's visit collects "
     "tags, expressions, scopes and children of every node. 2 open findings (implicit "
-    "`translations` read; inline-snippet name) are listed in known_findings.jsonl.",
+    "`translations` read; inline-snippet name) are listed in known_findings.jsonl."
+    ' C19-BALANCE: every scope frame _visit pushes is popped on every path before it returns. C19-KEY also reports partial names that collapse to a constant and shared-scope partials without a key (two open findings).',
     "Not decided: the analyser's scope bookkeeping and partial de-duplication over visit "
     "histories (a partial first visited inside a loop is not revisited outside it — recorded in "
     "DESIGN.md, not detectable by a shape rule). Sync/async parity: C01.",
@@ -318,7 +326,8 @@ claim(
     "never rebound (offsets are relative to the text the caller holds); every Span in static analysis and tag analysis is located at the "
     "token of the very item whose name keys the report and names the template being visited; "
     "error formatting indexes the token's own source only after the start_index < 0 guard, and "
-    "every parse-time LiquidError raise passes token=.",
+    "every parse-time LiquidError raise passes token=."
+    ' The line scan of LiquidError._error_context (lengths from splitlines(keepends=True)) is decided too, so formatting an error never fails for a lexer token.',
     "Reviewed rows: quoted literals (string, ['ident'], [index]) carry the inner group as value "
     "and the start of the whole literal as offset — pinned by the existing test-suite. Text "
     "tokens are not reported items.",
@@ -340,7 +349,8 @@ claim(
     "WORD token of the expression tokenizer (exact character-class inclusion over all code "
     "points, sa/rx.py) and that is not a tokenizer keyword; the logical-expression "
     "serialiser brackets with the parser's binding powers (and/or equal, right grouping, not as "
-    "operand, comparisons included). 3 open findings (nil/empty/blank print '') are listed.",
+    "operand, comparisons included). 3 open findings (nil/empty/blank print '') are listed."
+    " C04-VERBATIM: a node that keeps source text (the content node's text, the liquid tag's expression token) writes it back through copies, f-strings, concatenation and whole-text strip only.",
     "Not decided: equality of the re-parsed tree / identical rendering for every template. The "
     "C04-PREC rule reads the bracket test of BooleanExpression.__str__ disjunct by disjunct in "
     "canonical form; a differently factored but equivalent rule is reported for review. Extra "
@@ -362,7 +372,8 @@ claim(
     "BlockTag.parse rejects a mismatched endblock name; stacks are per block name, leaf first, "
     "linked parentwards; a block renders block_stack[0] with parent = that item's parent and "
     "block.super renders exactly one step up; RequiredBlockError is raised on the direct and the "
-    "stacked path before rendering and `required` is cleared only under a more derived override.",
+    "stacked path before rendering and `required` is cleared only under a more derived override."
+    " C18-SCOPE: copy(block_scope=True) chains the new context's scope to the caller's live self.scope after the new locals and the block namespace, so a block nested in a loop or another block reads what the root's block would read there.",
     "Not decided: the output of particular chains (value level). Sync/async parity: C01.",
     "DESIGN.md section 5 C18",
 )
@@ -441,7 +452,8 @@ claim(
     "comment_start_string) reaches its line pattern through re.escape, is tried before any "
     "alternative that can start with a word character, is closed by a word boundary for markers "
     "ending in a word character, and a line is skipped exactly when the captured name equals the "
-    "unescaped marker (C11-MARKER, decided on the parsed regex).",
+    "unescaped marker (C11-MARKER, decided on the parsed regex)."
+    ' C11-MEMO: a delimiter-taking function that memoises by hand indexes the memo by the tuple of its delimiter parameters (lru_cache does by construction).',
     "Not decided: output equality under delimiter rewriting as such. Reviewed row: the liquid "
     "tag derives its line-comment marker from comment_start_string (documented). Shared mutable "
     "module state is decided under C17-MODULE.",
@@ -459,7 +471,8 @@ claim(
     "replaced by to_liquid_string(context.resolve(name)); the plural count is tested with "
     "`is None` (never truthiness, never membership in a tuple containing booleans), defaults as "
     "documented and is passed last to ngettext/npgettext; tag and filters fall back to "
-    "NullTranslations(); whitespace is collapsed only when trim_messages is set.",
+    "NullTranslations(); whitespace is collapsed only when trim_messages is set."
+    ' C26-UNDOUBLE: at every return of _format_message / format_message the text has been %-formatted exactly as often as its percent signs were doubled.',
     "Trusted: gettext.NullTranslations (singular iff n == 1). A float count is truncated by "
     "int() before it reaches ngettext (1.5 -> singular) — value-level, not decided.",
     "DESIGN.md section 5 C26",
@@ -480,7 +493,8 @@ claim(
     "constructed from what they describe (C13-BIND): `it` / `length` receive the (iterator, "
     "length) pair returned by the loop expression, `ncols` the cols value (or the length when "
     "there is none), by parameter name, in both twins, and each constructor stores them under "
-    "the attribute the formulas read.",
+    "the attribute the formulas read."
+    ' C13-BLANK: the loop nodes derive `blank` from every block they render, so the else output is never suppressed.',
     "Not decided: which items a particular collection/limit/offset combination yields, helper "
     "values along a run, tablerow HTML geometry for every cols value (value level).",
     "DESIGN.md section 5 C13",
@@ -499,7 +513,8 @@ claim(
     "tree in which every render of a block found at run time (partial, macro, parent block) is "
     "on a context.copy or under context.extend; the worst-case frame count from the call graph "
     "and the default limits is compared with CPython's recursion limit. 4 open findings: three "
-    "unguarded expression-parser recursions and the default stack budget (6816 > 1000).",
+    "unguarded expression-parser recursions and the default stack budget (6816 > 1000)."
+    ' C09-FUNNEL: a handler around self._parse(source) in from_string catches RecursionError and raises a LiquidError, so a parse that does exhaust the stack (the listed findings) is reported as a template error.',
     "Not decided: regular-expression matching cost ('promptly'); loops over render data (finite "
     "iterables); termination of user-supplied drops/filters. Call resolution is by role table and "
     "method name; unresolved calls (builtins) are counted in the evidence.",
@@ -523,7 +538,8 @@ claim(
     "at render time (nothing converts it there) is decided through the render-side depth rules "
     "shared with C09 (C02-RECURSION): both ContextDepthError guards, copy_depth + 1 on every "
     "context copy builds, every run-time-found block rendered under a guard, and the frame budget "
-    "(the last is a listed open finding).",
+    "(the last is a listed open finding)."
+    ' f-string interpolation of a possibly huge int is armed as a str(int) site; reviewed rows about `next()` on the first pair of a mapping and `_segments_str` carry machine-checked side conditions (non-empty object; first segment known to be a str, followed through private helpers).',
     "Trusted: the primitive table (CPython/stdlib documented behaviour; dateutil, babel and pytz "
     "rows are trusted) and the kind transfer table in sa/kinds.py; name-based method resolution "
     "(over-approximate) with arity filtering; the reviewed rows in sa/props/c02.py. Out of scope: "
